@@ -3,6 +3,7 @@ package main
 import (
 	"fmt"
 	"reflect"
+	"sort"
 	"strings"
 	"time"
 
@@ -359,15 +360,17 @@ func genC16(g *prng.R) c16Case {
 			}
 			for id, w := range cs.WantStore {
 				st, _ := sc.Store[id].(M)
-				if wm, isM := w.(M); isM && upd != nil && st != nil {
+				if _, isM := w.(M); isM && upd != nil && st != nil {
+					var nulled []string
 					for k, v := range upd {
-						if v == nil {
-							delete(upd, k)
-							if sv, had := st[k]; had {
-								wm[k] = sv
-							}
+						if v == nil && k != "x-custom" {
+							// (a null stays a null under the alias: the
+							// member "as:<k>" has to go)
+							nulled = append(nulled, id+"|as:"+k)
 						}
 					}
+					sort.Strings(nulled)
+					cs.Info["aliased_nulls"] = nulled
 				}
 			}
 			sc.Requests[0].Body = aliasDoc(act)
@@ -441,6 +444,17 @@ func init() {
 			for _, u := range cs.Untouched {
 				if !reflect.DeepEqual(res.Before.Store[u], res.After.Store[u]) {
 					viol("untouchable-modified", site, cs.Typ, fmt.Sprintf("%s changed", u))
+				}
+			}
+			if nl, _ := cs.Info["aliased_nulls"].([]string); len(nl) > 0 {
+				for _, ik := range nl {
+					parts := strings.SplitN(ik, "|", 2)
+					if gm, isM := res.After.Store[parts[0]].(map[string]interface{}); isM {
+						if _, still := gm[parts[1]]; still {
+							viol("store-delta", site, "Update: member supplied as null under an alias not removed", fmt.Sprintf("stored %s still has %q", parts[0], parts[1]))
+							break
+						}
+					}
 				}
 			}
 			for id, want := range cs.WantStore {
